@@ -237,6 +237,10 @@ class PathSum:
         if t[0] == "not":
             a, b = self.split_bool(st, t[1])
             return b, a
+        if t[0] == "call" and len(t[2]) == 1 and t[1] in (RESULT + "::is_ok", RESULT + "::is_err", OPTION + "::is_some", OPTION + "::is_none"):
+            # a test of the variant, written as a method: the same condition as a pattern match
+            y, n = self.split(st, t[2][0], OK if t[1].startswith(RESULT) else SOME)
+            return (y, n) if t[1].endswith(("is_ok", "is_some")) else (n, y)
         if t[0] == "bin" and t[1] in ("Eq", "Ne"):
             for a_, b_ in ((t[2], t[3]), (t[3], t[2])):
                 if b_[0] == "ctor" and not b_[2] and a_[0] != "ctor" and parent(b_[1]) in self.enums:
@@ -338,7 +342,8 @@ class PathSum:
                     return [], un
                 m, u = self._match_seq(yes, [(self.payload(t, path, i), sp) for i, sp in enumerate(p["pats"])])
                 return m, un + u
-            return self._match_seq(st, [(("field", t, str(i)), sp) for i, sp in enumerate(p["pats"])])
+            # a tuple struct taken apart by a pattern: the same components as `t.0`, `t.1` ...
+            return self._match_seq(st, [(self.field(t, str(i)), sp) for i, sp in enumerate(p["pats"])])
         if k == "Struct":
             res = p["res"]
             dk = res.get("dk", "")
@@ -402,15 +407,51 @@ class PathSum:
                     if cc[0] == "empty" and cc[1] == t:
                         return ([st], []) if cc[2] else ([], [st])
                 return [st.with_cond(c + (True,))], [st.with_cond(c + (False,))]
-            c = ("slicepat", t, len(p["before"]), bool(p["slice"]), len(p["after"]))
+            nb, na = len(p["before"]), len(p["after"])
+            def irrefutable(sp):
+                while sp.get("k") in ("Ref", "Deref"):
+                    sp = sp["pat"]
+                return sp.get("k") == "Wild" or (sp.get("k") == "Bind" and not sp.get("sub"))
+            wild = all(irrefutable(sp) for sp in p["before"] + p["after"])
+            if nb + na == 1 and p["slice"] and wild:
+                # `[_, ..]` / `[.., _]`: the slice is not empty - the same condition as `[]`, negated
+                c = ("empty", t)
+                known = None
+                for cc in st.conds:
+                    if cc[0] == "empty" and cc[1] == t:
+                        known = cc[2]
+                if known is None:
+                    yes_l, no_l = [st.with_cond(c + (False,))], [st.with_cond(c + (True,))]
+                else:
+                    yes_l, no_l = ([], [st]) if known else ([st], [])
+                out_m = []
+                for y in yes_l:
+                    items = [(("index", t, ("lit", "int", i)), sp) for i, sp in enumerate(p["before"])]
+                    m1, _ = self._match_seq(y, items)
+                    for y2 in m1:
+                        out_m += self._bind_rest(y2, t, p, nb, na)
+                return out_m, no_l
+            c = ("slicepat", t, nb, bool(p["slice"]), na)
             yes = st.with_cond(c + (True,))
             items = [(("index", t, ("lit", "int", i)), sp) for i, sp in enumerate(p["before"])]
             m, u = self._match_seq(yes, items)
-            return m, [st.with_cond(c + (False,))] + u
+            m2 = []
+            for y in m:
+                m2 += self._bind_rest(y, t, p, nb, na)
+            return m2, [st.with_cond(c + (False,))] + u
         if k == "Guard":
             m, u = self.match_pat(st, t, p["pat"])
             return m, u
         raise Unsupported("pattern " + k)
+
+    def _bind_rest(self, st, t, p, nb, na):
+        """`rest @ ..` in a slice pattern without trailing elements is t[nb..]"""
+        sl = p.get("slice")
+        if isinstance(sl, dict) and sl.get("k") == "Bind" and na == 0:
+            rest = ("index", t, ("struct", "core::ops::range::RangeFrom", (("start", ("lit", "int", nb)),)))
+            m, _ = self.match_pat(st, rest, sl)
+            return m
+        return [st]
 
     def _patlit(self, p):
         if p is None:
@@ -440,6 +481,12 @@ class PathSum:
     def tproj(self, t, i):
         if t[0] == "tuple" and i < len(t[1]):
             return t[1][i]
+        if t[0] == "call" and t[1].split("::")[-1] in ("split_at", "split_at_mut") and "slice" in t[1] and len(t[2]) == 2 and i in (0, 1):
+            # the halves of s.split_at(k) are s[..k] and s[k..] (the bounds check is the split's own panic edge)
+            b, k = t[2]
+            if i == 0:
+                return ("index", b, ("struct", "core::ops::range::RangeTo", (("end", k),)))
+            return ("index", b, ("struct", "core::ops::range::RangeFrom", (("start", k),)))
         return ("tproj", t, i)
 
     def field(self, t, name):
@@ -450,7 +497,7 @@ class PathSum:
                 if n == name:
                     return v
         if name.isdigit():
-            return ("tproj", t, int(name))
+            return self.tproj(t, int(name))
         return ("field", t, name)
 
     # ------------------------------------------------------------------ evaluation
@@ -609,7 +656,11 @@ class PathSum:
                 if x.get("k") == "Path" and x["res"].get("r") == "Local":
                     refs.add(x["res"]["id"])
             self._closure_refs[key] = refs
-        cap = tuple(sorted((i, v) for i, v in st.env.items() if i in refs and isinstance(v, tuple) and v and v[0] == "lit"))
+        # ... and so are captured function values (a combinator `either(first, second)` evaluated in place returns a
+        # closure over the two parsers it was given)
+        def funval(v):
+            return v[0] in ("lit", "closure", "fn") or (v[0] == "call" and v[1].startswith("microscpi::") and len(v) > 2)
+        cap = tuple(sorted(((i, v) for i, v in st.env.items() if i in refs and isinstance(v, tuple) and v and funval(v)), key=lambda iv: iv[0]))
         if cap:
             return [("val", st, ("closure", key, cap))]
         return [("val", st, ("closure", key))]
@@ -1059,16 +1110,31 @@ class PathSum:
         return res + [("val", s, UNIT) for s in cur]
 
     # -- calls
-    def apply_closure(self, key, args, st):
+    def apply_closure(self, key, args, st, cap=None):
         c = self.closures[key]
         s = st
+        if cap:
+            s = st.fork()
+            for (i_, v_) in cap:
+                s.env[i_] = v_        # what the closure captured when it was created
         for p, a in zip(c["params"], args):
             m, _ = self.match_pat(s, a, p)
             if not m:
                 return []
             s = m[0]
         res = []
+        MISSING = ("__missing__",)
+        saved = {i_: st.env.get(i_, MISSING) for (i_, _) in (cap or ())}
         for o in self.ev(c["body"], s):
+            if saved and len(o) > 1 and isinstance(o[1], St):
+                # the captured bindings are the closure's own frame: the caller's bindings come back when it returns
+                s3 = o[1].fork()
+                for i_, v_ in saved.items():
+                    if v_ is MISSING:
+                        s3.env.pop(i_, None)
+                    else:
+                        s3.env[i_] = v_
+                o = (o[0], s3) + tuple(o[2:])
             if o[0] in ("val", "ret"):
                 res.append(("val", o[1], o[2]))
             elif o[0] == "err":
@@ -1186,7 +1252,7 @@ class PathSum:
 
     def call_fn_term(self, ft, args, st, site, node):
         if ft[0] == "closure":
-            return self.apply_closure(ft[1], args, st)
+            return self.apply_closure(ft[1], args, st, ft[2] if len(ft) > 2 else None)
         s = st.fork()
         if ft[0] == "fn":
             if ft[1] in (OK, ERR, SOME):
@@ -1206,6 +1272,10 @@ class PathSum:
             return [("val", s, ("ctor", e["callee"], tuple(v))) for (s, v) in cur] + ab
         if e.get("callee"):
             callee = base_path(e.get("resolved") or e["callee"])
+            if callee in ("core::mem::replace", "core::mem::take") and e["args"]:
+                r = self._mem_replace(callee, e, st)
+                if r is not None:
+                    return r
             cur, ab = self.ev_list(e["args"], st)
             out = list(ab)
             for (s, v) in cur:
@@ -1232,6 +1302,59 @@ class PathSum:
         out = list(ab)
         for (s, v) in cur:
             out += self.call_fn_term(v[0], v[1:], s, site, e)
+        return out
+
+    def _mem_replace(self, callee, e, st):
+        """core::mem::replace(&mut x, v) / core::mem::take(&mut x) on a local x: yields the old value of x, x holds v (or the
+        default of its type: 0 / false for the scalar types)"""
+        from hir import strip
+        a0 = e["args"][0]
+        borrowed_here = False
+        while isinstance(a0, dict) and a0.get("k") in ("AddrOf", "DropTemps", "Use"):
+            if a0.get("k") == "AddrOf":
+                borrowed_here = True
+            a0 = a0["e"]
+        if not (isinstance(a0, dict) and a0.get("k") == "Path" and a0["res"].get("r") == "Local"):
+            return None
+        if not borrowed_here:
+            # the argument is a `&mut T` held in a local: a store through that reference
+            if callee.endswith("::take") or len(e["args"]) != 2:
+                return None
+            out = []
+            for o in self.ev(e["args"][1], st):
+                if o[0] != "val":
+                    out.append(o)
+                    continue
+                for o2 in self.ev(a0, o[1]):
+                    if o2[0] != "val":
+                        out.append(o2)
+                        continue
+                    s2 = o2[1].fork()
+                    s2.add_effect(("store", o2[2], o[2], None, loc(e)))
+                    out.append(("val", s2, ("deref_old", o2[2])))
+            return out
+        lid = self._alias.get(a0["res"]["id"], a0["res"]["id"])
+        if callee.endswith("::take"):
+            ty = e.get("ty", "")
+            if ty in ("usize", "u8", "u16", "u32", "u64", "i8", "i16", "i32", "i64", "isize"):
+                news = [("val", st, ("lit", "int", 0))]
+            elif ty == "bool":
+                news = [("val", st, ("lit", "bool", False))]
+            else:
+                return None
+        else:
+            if len(e["args"]) != 2:
+                return None
+            news = self.ev(e["args"][1], st)
+        out = []
+        for o in news:
+            if o[0] != "val":
+                out.append(o)
+                continue
+            s2 = o[1].fork()
+            old = s2.env.get(lid, ("local", lid, a0["res"]["name"]))
+            s2.env[lid] = o[2]
+            out.append(("val", s2, old))
         return out
 
     def ev_MethodCall(self, e, st):
@@ -1283,6 +1406,20 @@ class PathSum:
     # -- Result / Option combinators
     def combinator(self, callee, v, st, site, node):
         head = callee
+        if head in ("memchr::memchr", "memchr::memchr::memchr") and len(v) == 2 and v[0][0] == "lit" and isinstance(v[0][2], int):
+            # memchr(b, s) is s.iter().position(|x| *x == b): presented as that search (a synthetic predicate closure)
+            key = site + "::{memchr}"
+            sid = key + "$elem"
+            self.closures[key] = {"k": "Closure", "def": key, "params": [{"k": "Bind", "id": sid, "name": "elem", "ty": "u8"}],
+                                  "body": {"k": "Binary", "op": "Eq", "ty": "bool",
+                                           "l": {"k": "Path", "res": {"r": "Local", "id": sid, "name": "elem"}, "ty": "u8"},
+                                           "r": {"k": "Lit", "lit": {"t": "byte", "v": v[0][2]}, "ty": "u8"}}}
+            it = ("call", "core::slice::iter", (v[1],), site)
+            pos = ("call", "<core::slice::iter::Iter<'a, T> as core::iter::traits::iterator::Iterator>::position", (it, ("closure", key)), site)
+            s2 = st.fork()
+            s2.add_effect(("call", it[1], it[2], site))
+            s2.add_effect(("call", pos[1], pos[2], site))
+            return [("val", s2, pos)]
         if len(v) == 1 and v[0][0] == "lit" and isinstance(v[0][2], int) and not isinstance(v[0][2], bool) and (node.get("ty") == "char") \
                 and head.split("::")[-1] == "from" and "char" in head:
             # char::from(<u8 literal>) is that character
@@ -1291,7 +1428,7 @@ class PathSum:
             # find(it, pred): Some(item) with pred(item) true for an element of `it`, or None when no element satisfies it
             item = ("iter_item", v[0], site)
             out = []
-            for o in self.apply_closure(v[1][1], [item], st):
+            for o in self.apply_closure(v[1][1], [item], st, v[1][2] if len(v[1]) > 2 else None):
                 if o[0] != "val":
                     out.append(o)
                     continue
@@ -1509,7 +1646,7 @@ def show_term(t, depth=0):
         n = t[1].split("::")[-1]
         return n + ("(%s)" % ", ".join(show_term(x, d) for x in t[2]) if t[2] else "")
     if k == "struct":
-        return "%s{%s}" % (t[1].split("::")[-1], ", ".join("%s: %s" % (n, show_term(v, d)) for n, v in t[2]))
+        return "%s{%s}" % ((t[1] or "Self").split("::")[-1], ", ".join("%s: %s" % (n, show_term(v, d)) for n, v in t[2]))
     if k in ("tuple", "array"):
         return "(%s)" % ", ".join(show_term(x, d) for x in t[1])
     if k == "call":
